@@ -60,16 +60,16 @@ type wakeMsg struct {
 }
 
 type Thread struct {
-	ID     int
-	Name   string
-	wake   chan wakeMsg
-	op     op
-	done   bool
-	Daemon bool // may stay blocked at the end of an execution without being a deadlock
-	rendez bool // woken as the receiving side of an unbuffered hand-off
-	vc     vclock
-	lastRun int     // step at which the thread last held the baton
-	stack  []string // tracked methods this thread is inside (outermost first)
+	ID      int
+	Name    string
+	wake    chan wakeMsg
+	op      op
+	done    bool
+	Daemon  bool // may stay blocked at the end of an execution without being a deadlock
+	rendez  bool // woken as the receiving side of an unbuffered hand-off
+	vc      vclock
+	lastRun int      // step at which the thread last held the baton
+	stack   []string // tracked methods this thread is inside (outermost first)
 }
 
 // Env is an environment event (timer firing, signal, end of input ...).
@@ -90,7 +90,7 @@ type Point struct {
 	RunningEnabled bool
 	Desc           string // only filled when Describe is set
 	SelCase        bool   // which ready case of a select fires (not a thread choice)
-	Fixed          bool // outside the exploration window: no alternatives are explored here
+	Fixed          bool   // outside the exploration window: no alternatives are explored here
 }
 
 type PanicInfo struct {
@@ -143,6 +143,9 @@ type Sched struct {
 
 // Describe makes every trace point carry a description (replays, violation reports).
 var Describe bool
+
+// AlwaysDescribe keeps descriptions on whatever Describe says (debugging).
+var AlwaysDescribe bool
 
 // S is the active scheduler (nil outside an execution).
 var S *Sched
@@ -754,7 +757,7 @@ func (s *Sched) loop(mainT *Thread) {
 		}
 		id := en[idx]
 		desc := ""
-		if !Describe {
+		if !Describe && !AlwaysDescribe {
 		} else if id >= 0 {
 			desc = s.describe(s.threads[id])
 		} else {
